@@ -9,6 +9,7 @@ package main
 
 import (
 	"fmt"
+	"os"
 	"strings"
 	"testing"
 	"time"
@@ -221,7 +222,12 @@ func TestC15(t *testing.T) {
 	})
 
 	// ---- lab part: the wiring (dialogTimeout, Expires, BYE / NOTIFY paths) on a real proxy
-	c15Lab(t)
+	c15Lab(t, stdVariant{Pool: 4, Timeout: 1}, "lab")
+	if os.Getenv("VERIF_BIN") != "" && !V.replay {
+		// bin engine: no dialogTimeout in the YAML, DEFAULT_DIALOG_TIMEOUT=1 in the
+		// environment of the real binary
+		c15Lab(t, stdVariant{Pool: 4, Bin: true, BinEnv: []string{"DEFAULT_DIALOG_TIMEOUT=1"}}, "bin")
+	}
 }
 
 type c15Dlg struct {
@@ -234,13 +240,17 @@ type c15Dlg struct {
 	life      time.Duration
 }
 
-func c15Lab(t *testing.T) {
+func c15Lab(t *testing.T, variant stdVariant, engine string) {
 	V.Require("lab: BYE answered dissolves the pin", "lab: NOTIFY terminated dissolves the pin", "lab: NOTIFY active keeps the pin", "lab: probe before expiry", "lab: probe after expiry", "lab: Expires extends the lifetime")
-	svc, err := newStdSvc(stdVariant{Pool: 4, Timeout: 1})
+	svc, err := newStdSvc(variant)
 	if err != nil {
-		V.HarnessError(t, "cannot start lab instance: %v", err)
+		V.HarnessError(t, "cannot start %s instance: %v", engine, err)
 	}
 	s := svc
+	if variant.Bin {
+		defer s.in.stopBin()
+		V.Require("bin: DEFAULT_DIALOG_TIMEOUT honoured by the real binary")
+	}
 	l := s.in.cfg.Listens[0]
 	for _, b := range l.Backends {
 		_, hp, _ := strings.Cut(b, "://")
@@ -346,7 +356,7 @@ func c15Lab(t *testing.T) {
 	}
 	lost := func(err error) bool { _, ok := err.(labLost); return ok }
 
-	rcheck(t, "lab-termination", V.N(60, 400), func(rt *rapid.T) {
+	rcheck(t, engine+"-termination", V.N(map[bool]int{false: 60, true: 15}[variant.Bin], map[bool]int{false: 400, true: 100}[variant.Bin]), func(rt *rapid.T) {
 		d, err := pin("")
 		if err != nil {
 			if lost(err) {
@@ -355,7 +365,7 @@ func c15Lab(t *testing.T) {
 			V.HarnessError(rt, "%v", err)
 		}
 		hist := []string{"INVITE/200 pins " + d.id + " to " + d.pinned}
-		V.Journal(t.Name()+"/lab-termination", hist)
+		V.Journal(t.Name()+"/"+engine+"-termination", hist)
 		expectPinned := true
 		dontCare := false
 		steps := rapid.IntRange(1, 4).Draw(rt, "steps")
@@ -430,14 +440,14 @@ func c15Lab(t *testing.T) {
 					failf(rt, "in-dialog %s reached the pinned backend: %v, expected %v (a dissolved pin must be load-balanced, a live one honoured)\nhistory: %v", m, stuck, expectPinned, hist)
 				}
 			}
-			V.Journal(t.Name()+"/lab-termination", hist)
+			V.Journal(t.Name()+"/"+engine+"-termination", hist)
 		}
 		V.NonTrivial(strings.Join(hist[1:], "|"))
 		V.SampleEvery(20, func() any { return hist })
 	})
 
-	t.Run("lab-expiry", func(t *testing.T) {
-		rounds := V.N(2, 10)
+	t.Run(engine+"-expiry", func(t *testing.T) {
+		rounds := V.N(map[bool]int{false: 2, true: 1}[variant.Bin], map[bool]int{false: 10, true: 4}[variant.Bin])
 		for r := 0; r < rounds && V.ViolationCount() == 0; r++ {
 			var ds []*c15Dlg
 			for i := 0; i < 12; i++ {
@@ -473,6 +483,7 @@ func c15Lab(t *testing.T) {
 					}
 				case earliest >= d.life:
 					V.Class("lab: probe after expiry")
+					V.ClassIf(variant.Bin, "bin: DEFAULT_DIALOG_TIMEOUT honoured by the real binary")
 					V.NonTrivial(fmt.Sprintf("%s|%s|after", d.id, phase))
 					if stuck {
 						V.Violation(t, "", desc, "pin (lifetime %v) still honoured at age >= %v", d.life, earliest)
